@@ -301,7 +301,7 @@ def discharge(mod, pid, cfg, o, A, B, timeout_ms, seed, path):
                     # a model of the swept goal is a model of the original (merges are equalities)
                     pass
         else:
-            res = prove.valid(goal, AA, to)
+            res = prove.valid(goal, AA, to, defined=not o.meta.get('no_definedness', False))
         orec['verdict'] = res.verdict
         if res.note:
             orec['note'] = res.note
@@ -336,7 +336,7 @@ def discharge(mod, pid, cfg, o, A, B, timeout_ms, seed, path):
             orec['known_env'] = orec['env']
             orec['known_replay'] = rep
             excl.append(tm.Not(L(_eval_when(e['match']['when'], o.name, symbolic=True))))
-            res = prove.valid(goal, AA + excl, to)
+            res = prove.valid(goal, AA + excl, to, defined=not o.meta.get('no_definedness', False))
             orec['verdict_after_exclusion'] = res.verdict
             if res.verdict != 'cex':
                 orec['verdict'] = 'known'
@@ -504,7 +504,7 @@ def main(argv=None):
     t0 = time.time()
     cfgs = mod.configs(a.tier)
     if a.only:
-        cfgs = [c for c in cfgs if a.only in cfg_key(c)]
+        cfgs = [c for c in cfgs if all(s in cfg_key(c) for s in a.only.split(';'))]
     import multiprocessing as mp
     recs = []
     jobs = [(a.pid, c, a.tier, seed) for c in cfgs]
